@@ -6,6 +6,7 @@ import SqlcModel.Driver.C17
 import SqlcModel.Driver.C04
 import SqlcModel.Driver.C11
 import SqlcModel.Driver.C12
+import SqlcModel.Driver.C03
 open Lean Sqlc.Drv
 
 def dispatch (prop kind : String) (inp impl : Json) : Verdict :=
@@ -17,6 +18,7 @@ def dispatch (prop kind : String) (inp impl : Json) : Verdict :=
   | "C04" => c04 kind inp impl
   | "C11" => c11 kind inp impl
   | "C12" => c12 kind inp impl
+  | "C03" => c03 kind inp impl
   | _ => { compare := false, frag := "no-model" }
 
 partial def loop (prop : String) (h : IO.FS.Stream) (out : IO.FS.Stream) : IO Unit := do
